@@ -929,8 +929,9 @@ open Gossamer.Monitor in
 /-- the lock table as Monitor methods -/
 def table : List Monitor.Method := (Monitor.ofTriples lockTable).getD []
 
-/-- **C35_race_free.**  Over the lock table of `LRUCache` (the harness re-extracts it from
-    lru_cache.go on every run and compares it with `lockTable`): every method that writes the
+/-- **C35_race_free.**  Over the lock table of `LRUCache` as transcribed when this file was
+    written (informational: the check does NOT compare against it, it decides the table it
+    extracts from lru_cache.go at run time with the same `Monitor.raceFree`): every method that writes the
     guarded fields holds the exclusive lock and every reader holds a lock, hence no two
     conflicting methods can be inside their critical sections together. -/
 theorem C35_race_free :
@@ -945,46 +946,52 @@ def Op.method : Op → String
   | .get _ => "Get"
   | .put _ _ => "Put"
 
-def modeOf (name : String) : Monitor.Mode :=
-  match table.find? (·.name == name) with
-  | some m => m.mode
-  | none => .none
+/-- an invocation of a cache method under lock table `t` (any table the harness may extract):
+    it takes the lock the table assigns to its method and runs its body (one micro-step here;
+    `Monitor.linearizable` holds for any split of a body into micro-steps) -/
+def invOf (t : List Monitor.Method) (op : Op) : Monitor.Inv Cache Nat :=
+  { mode := Monitor.modeIn t op.method, body := [fun c _ => ((step c op).2, (step c op).1)], init := 0 }
 
-/-- an invocation of a cache method: it takes the lock the table says and runs its body (one
-    micro-step here; `Monitor.linearizable` holds for any split of a body into micro-steps) -/
-def invOf (op : Op) : Monitor.Inv Cache Nat :=
-  { mode := modeOf op.method, body := [fun c _ => ((step c op).2, (step c op).1)], init := 0 }
+/-- what the lock-table check establishes for a table: it is race free, and the extractor
+    classifies Get and Put as writers of the guarded fields (Get reorders the recency list) -/
+structure GoodTable (t : List Monitor.Method) : Prop where
+  raceFree : Monitor.raceFree t = true
+  get : Monitor.accessIn t "Get" = .writes
+  put : Monitor.accessIn t "Put" = .writes
 
-theorem modeOf_get : modeOf "Get" = .lock := by decide
-theorem modeOf_put : modeOf "Put" = .lock := by decide
+/-- today's table is one such table (the check itself decides the table extracted at run time) -/
+theorem goodTable_today : GoodTable table := by
+  refine ⟨?_, ?_, ?_⟩ <;> decide
 
-theorem invOf_mode (op : Op) : (invOf op).mode = .lock := by
+theorem invOf_mode {t : List Monitor.Method} (ht : GoodTable t) (op : Op) : (invOf t op).mode = .lock := by
   cases op with
-  | get k => exact modeOf_get
-  | put k v => exact modeOf_put
+  | get k => exact Monitor.modeIn_lock ht.raceFree ht.get
+  | put k v => exact Monitor.modeIn_lock ht.raceFree ht.put
 
-theorem seqRun_invOf (calls : Nat → Op) (order : List Nat) : ∀ c : Cache,
-    Monitor.seqRun (fun i => invOf (calls i)) c order =
+theorem seqRun_invOf (t : List Monitor.Method) (calls : Nat → Op) (order : List Nat) : ∀ c : Cache,
+    Monitor.seqRun (fun i => invOf t (calls i)) c order =
       ((run c (order.map calls)).2, order.zip (run c (order.map calls)).1) := by
   induction order with
   | nil => intro c; rfl
   | cons i is ih =>
     intro c
     simp only [Monitor.seqRun, List.map_cons, run, List.zip_cons_cons]
-    have hb : Monitor.runBody (invOf (calls i)).body c (invOf (calls i)).init =
+    have hb : Monitor.runBody (invOf t (calls i)).body c (invOf t (calls i)).init =
         ((step c (calls i)).2, (step c (calls i)).1) := rfl
     rw [hb, ih]
 
-/-- **C35_linearizable.**  Any number of goroutines call Get/Put (`calls i` is the i-th
+/-- **C35_linearizable.**  For ANY lock table `t` that the check accepts (race free, Get and Put
+    classified as writers): any number of goroutines call Get/Put (`calls i` is the i-th
     invocation) on a cache created with capacity `cap`; each invocation acquires the lock the
-    lock table assigns to its method, runs, and releases; acquisitions obey the RWMutex rules;
-    the interleaving is otherwise arbitrary.  Whenever no invocation is in progress, the cache
-    state and the value returned to every invocation are exactly those of the sequential model
-    run of the invocations in release order, hence (C35_refines) those of the capacity-bounded
-    recency list.  Release order extends real-time order. -/
-theorem C35_linearizable (cap : Nat) (hcap : cap < 2 ^ 63) (calls : Nat → Op)
+    table assigns to its method, runs, and releases; acquisitions obey the RWMutex rules; the
+    interleaving is otherwise arbitrary.  Whenever no invocation is in progress, the cache state
+    and the value returned to every invocation are exactly those of the sequential model run of
+    the invocations in release order, hence (C35_refines) those of the capacity-bounded recency
+    list.  Release order extends real-time order. -/
+theorem C35_linearizable (t : List Monitor.Method) (ht : GoodTable t)
+    (cap : Nat) (hcap : cap < 2 ^ 63) (calls : Nat → Op)
     (es : List Monitor.Ev) (c : Monitor.Cfg Cache Nat)
-    (hs : Monitor.Steps (fun i => invOf (calls i)) (Monitor.Cfg.init (new cap)) es c)
+    (hs : Monitor.Steps (fun i => invOf t (calls i)) (Monitor.Cfg.init (new cap)) es c)
     (hq : ∀ j, c.fl j = none) :
     let order := c.log.reverse.map (·.1)
     c.shared = (run (new cap) (order.map calls)).2 ∧
@@ -992,9 +999,9 @@ theorem C35_linearizable (cap : Nat) (hcap : cap < 2 ^ 63) (calls : Nat → Op)
     (run (new cap) (order.map calls)).1 = (srun (snew cap) (order.map calls)).1 ∧
     abs c.shared = (srun (snew cap) (order.map calls)).2 := by
   intro order
-  have hp : Monitor.ReadersPure (fun i => invOf (calls i)) := by
+  have hp : Monitor.ReadersPure (fun i => invOf t (calls i)) := by
     intro i hr
-    rw [invOf_mode] at hr
+    rw [invOf_mode ht] at hr
     cases hr
   have h := Monitor.linearizable _ hp (new cap) es c hs hq
   rw [seqRun_invOf] at h
@@ -1003,27 +1010,31 @@ theorem C35_linearizable (cap : Nat) (hcap : cap < 2 ^ 63) (calls : Nat → Op)
   have hr := C35_refines cap hcap (order.map calls)
   exact ⟨h1.symm, h2.symm, hr.1, by rw [← h1]; exact hr.2⟩
 
-/-- two invocations are never inside the cache at the same time (both methods take the
-    exclusive lock) -/
-theorem C35_mutual_exclusion (cap : Nat) (calls : Nat → Op)
+/-- under any accepted table two invocations are never inside the cache at the same time (both
+    methods write, so both must take the exclusive lock) -/
+theorem C35_mutual_exclusion (t : List Monitor.Method) (ht : GoodTable t) (cap : Nat) (calls : Nat → Op)
     (es : List Monitor.Ev) (c : Monitor.Cfg Cache Nat)
-    (hs : Monitor.Steps (fun i => invOf (calls i)) (Monitor.Cfg.init (new cap)) es c)
+    (hs : Monitor.Steps (fun i => invOf t (calls i)) (Monitor.Cfg.init (new cap)) es c)
     (i j : Nat) (hi : c.fl i ≠ none) (hj : c.fl j ≠ none) : i = j := by
   apply Classical.byContradiction
   intro hij
-  have hp : Monitor.ReadersPure (fun i => invOf (calls i)) := by
+  have hp : Monitor.ReadersPure (fun i => invOf t (calls i)) := by
     intro i hr
-    rw [invOf_mode] at hr
+    rw [invOf_mode ht] at hr
     cases hr
   have := (Monitor.no_conflict _ hp (new cap) es c hs i j hi hj hij).1
-  rw [invOf_mode] at this
+  rw [invOf_mode ht] at this
   cases this
 
+/-- a table with Get under RLock is never accepted -/
+theorem C35_get_needs_lock (t : List Monitor.Method) (ht : GoodTable t) :
+    Monitor.modeIn t "Get" = .lock := Monitor.modeIn_lock ht.raceFree ht.get
+
 /-- non-vacuity of the hypotheses of C35_linearizable: a Put can run alone to completion -/
-example : ∃ c, Monitor.Steps (fun i => invOf ((fun _ => Op.put 1 5) i)) (Monitor.Cfg.init (new 2))
+example : ∃ c, Monitor.Steps (fun i => invOf table ((fun _ => Op.put 1 5) i)) (Monitor.Cfg.init (new 2))
     [.acq 0, .step 0, .rel 0] c ∧ (∀ j, c.fl j = none) := by
-  obtain ⟨c, h1, h2, _⟩ := Monitor.solo_one (fun i => invOf ((fun _ => Op.put 1 5) i)) 0 _ rfl
-    (by rw [invOf_mode]; simp) (new 2)
+  obtain ⟨c, h1, h2, _⟩ := Monitor.solo_one (fun i => invOf table ((fun _ => Op.put 1 5) i)) 0 _ rfl
+    (by rw [invOf_mode goodTable_today]; simp) (new 2)
   exact ⟨c, h1, h2⟩
 
 end Gossamer.C35
